@@ -136,6 +136,15 @@ CLAIMED["C18"] = dict(
          "kinds. One genuine defect repaired (fix:). Inputs are sampled; the Lean object-grammar theorem of DESIGN (obj_roundtrip) is not built.",
     note=TB + "Operator expressions (F, Fd, NO) are compared as sympy objects and texts only. Only the default tensor-name configuration is exercised.")
 
+CLAIMED["C04"] = dict(
+    category="translation_validation", design="DESIGN.md §4 C04",
+    technique="every derived overlap expression is proved zero (resp. equal to the antisymmetrised delta product) for ALL amplitude values by the proved Lean checker checkEquiv; enumeration over variants / class pairs / orders",
+    text="overlap_isr(n, (I,J)) is derived for all enumerated variants, class pairs and orders and handed to checkEquiv against 0 (or the "
+         "antisymmetrised delta product at order 0, equal classes); overlap_precursor(I,J) against (J,I). By checkEquiv_sound an accepted "
+         "check holds for all amplitude tensors with the declared antisymmetry, all orbital models and all index assignments. The set of "
+         "(variant, classes, order, partitioning) is enumerated up to order 2 (cost of the Python derivation). One genuine defect repaired.",
+    note=TB + "Orders above 2 and the spec-level theorem isr_orthonormal of DESIGN are not built.")
+
 PENDING = {
 }
 
